@@ -4,19 +4,6 @@
 From V Require Import Common.Base C03.Num C03.Tree C03.MiniJS C03.Worlds C03.TreeProofs C03.TreeProofs4
   C03.TreeProofs9 C03.TreeProofs10.
 
-(* the optional-chain flags along the spine of a chain are the three of the AST
-   (OptionalChainNone / Start / Continue); followed through the first argument of
-   calls, where MangleIfExpr recurses *)
-Fixpoint spine_ok (e : expr) {struct e} : Prop :=
-  let all := fix all (l : list expr) : Prop := match l with [] => True | x :: r => spine_ok x /\ all r end in
-  match e with
-  | EDot t _ oc _ _ => (oc = 0 \/ oc = 1 \/ oc = 2) /\ spine_ok t
-  | EIndex t _ oc => (oc = 0 \/ oc = 1 \/ oc = 2) /\ spine_ok t
-  | ECall t args oc _ => (oc = 0 \/ oc = 1 \/ oc = 2) /\ spine_ok t /\ all args
-  | ESpread v => spine_ok v
-  | _ => True
-  end.
-
 Section TIOC.
   Variable W : world.
   Notation ev := (eval W).
@@ -79,10 +66,6 @@ Section TIOC.
   Lemma target_vls : forall e, is_chain e = true -> vls_ok e -> vls_ok (target_of e).
   Proof. destruct e; try discriminate; intros _ H; cbn [vls_ok target_of] in *; tauto. Qed.
 
-  Lemma target_spine : forall e, is_chain e = true -> spine_ok e ->
-    (oc_of e = 0 \/ oc_of e = 1 \/ oc_of e = 2) /\ spine_ok (target_of e).
-  Proof. destruct e; try discriminate; intros _ H; cbn [spine_ok target_of oc_of] in *; tauto. Qed.
-
   Lemma tioc_inv : forall test e e', try_insert_optional_chain test e = Some e' ->
     is_chain e = true /\
     ((values_look_the_same test (target_of e) = true /\ e' = relink e (target_of e) 1) \/
@@ -125,7 +108,7 @@ Section TIOC.
   Lemma target_value : forall oc t tr a, ev tr t = Some (tr, Val a) -> nullish a = false ->
     forall x, eval_target W oc tr t = Some x -> x = (tr, Val a).
   Proof.
-    intros oc t tr a E Hn x H. unfold eval_target in H. destruct (oc =? 2); [|congruence].
+    intros oc t tr a E Hn x H. unfold eval_target in H. destruct (is_cont oc); [|congruence].
     destruct (is_chain t) eqn:C; [|rewrite raw_nonchain in H by exact C; discriminate H].
     rewrite (chain_eval t tr C), H in E. destruct x as [t0 [v|z]]; cbn [catch_short] in E.
     - congruence.
@@ -134,72 +117,115 @@ Section TIOC.
 
   Definition D (p q : option (trace * outcome)) : Prop := forall r, p = Some r -> q = Some r.
 
-  Theorem tioc_sound_size : forall test, vls_ok test -> forall n e, (esize e <= n)%nat -> forall e',
-    vls_ok e -> spine_ok e -> try_insert_optional_chain test e = Some e' ->
-    is_chain e' = true /\
-    forall tr,
-      (forall tr1 z, ev tr test = Some (tr1, Throw z) -> raw tr e' = Some (tr1, Throw z)) /\
-      (forall a, ev tr test = Some (tr, Val a) ->
-         (nullish a = true -> raw tr e' = Some (tr, Throw VShort)) /\
-         (nullish a = false -> D (raw tr e) (raw tr e'))).
-  Proof.
-    intros test Hvt. induction n as [|n IH]; intros e Hsz e' Hv Hs H; [destruct e; cbn [esize] in Hsz; lia|].
-    destruct (tioc_inv _ _ _ H) as [Hc [[V ->] | [P [t' [T ->]]]]].
-    - (* the insertion point *)
-      split; [apply relink_chain; exact Hc|]. intros tr. rewrite raw_relink by exact Hc.
-      pose proof (target_vls e Hc Hv) as Hvt0.
-      assert (St : same_eval W test (target_of e))
-        by (exact (vls_sound_size W (esize test) test (le_n _) (target_of e) Hvt Hvt0 V)).
-      assert (Et1 : eval_target W 1 tr (target_of e) = ev tr test)
-        by (unfold eval_target; cbn [Z.eqb Pos.eqb]; symmetry; exact (proj1 (St tr))).
-      rewrite Et1. split.
-      + intros tr1 z E. rewrite E. reflexivity.
-      + intros a E. rewrite E. unfold gstep. cbn [bind]. unfold short_if. cbn [Z.eqb Pos.eqb andb].
-        split; intros Hn; rewrite Hn; [reflexivity|].
-        intros r Hr. rewrite raw_link in Hr by exact Hc. unfold gstep in Hr.
-        destruct (eval_target W (oc_of e) tr (target_of e)) as [x|] eqn:Et; [|discriminate Hr].
-        assert (E0 : ev tr (target_of e) = Some (tr, Val a)) by (rewrite <- (proj1 (St tr)); exact E).
-        rewrite (target_value _ _ _ _ E0 Hn _ Et) in Hr. cbn [bind] in Hr. unfold short_if in Hr.
-        rewrite Hn, andb_false_r in Hr. exact Hr.
-    - (* a link above the insertion point *)
-      pose proof (target_size e Hc) as Hts. pose proof (target_vls e Hc Hv) as Hvt0.
-      destruct (target_spine e Hc Hs) as [Hoc Hst].
-      destruct (IH (target_of e) ltac:(lia) t' Hvt0 Hst T) as [Hct' Hraw'].
-      pose proof (proj1 (tioc_inv _ _ _ T)) as Hct.
-      split; [apply relink_chain; exact Hc|]. intros tr. rewrite raw_relink by exact Hc.
-      destruct (Hraw' tr) as [Hthrow Hval].
-      split.
-      + intros tr1 z E. pose proof (Hthrow _ _ E) as Rt.
-        assert (Et : eval_target W (if oc_of e =? 0 then 2 else oc_of e) tr t' = Some (tr1, Throw z)).
-        { unfold eval_target. destruct ((if oc_of e =? 0 then 2 else oc_of e) =? 2); [exact Rt|].
-          rewrite (chain_eval t' tr Hct'), Rt. cbn [catch_short]. destruct z; try reflexivity.
-          exfalso. exact (eval_no_short W test tr tr1 E). }
-        rewrite Et. reflexivity.
-      + intros a E. destruct (Hval a E) as [Hnull Hnon]. split; intros Hn.
-        * pose proof (Hnull Hn) as Rt.
-          destruct Hoc as [O | [O | O]]; rewrite O; cbn [Z.eqb Pos.eqb]; unfold eval_target; cbn [Z.eqb Pos.eqb].
-          -- rewrite Rt. reflexivity.
-          -- rewrite (chain_eval t' tr Hct'), Rt. reflexivity.
-          -- rewrite Rt. reflexivity.
-        * pose proof (Hnon Hn) as Dt. intros r Hr. rewrite raw_link in Hr by exact Hc.
-          destruct Hoc as [O | [O | O]]; rewrite O in *; cbn [Z.eqb Pos.eqb] in *; unfold eval_target in *; cbn [Z.eqb Pos.eqb] in *.
-          -- (* a link outside of any chain: its target is not an optional chain (fix 01a3711) *)
-             unfold ends_paren_chain in P. cbn [Z.eqb Pos.eqb andb] in P.
-             assert (O' : oc_of (target_of e) = 0).
-             { destruct (target_of e); try discriminate Hct; cbn [is_optional_chain oc_of] in *;
-                 apply negb_false_iff in P; apply Z.eqb_eq in P; exact P. }
-             rewrite (chain_eval _ tr Hct), (catch_ns _ (raw_ns0 _ tr Hct O')) in Hr.
-             destruct (raw tr (target_of e)) as [x|] eqn:Rt; [|discriminate Hr].
-             rewrite (Dt x eq_refl). destruct x as [t0 [v|z]]; exact Hr.
-          -- rewrite (chain_eval _ tr Hct) in Hr. rewrite (chain_eval t' tr Hct').
-             destruct (raw tr (target_of e)) as [x|] eqn:Rt; [|discriminate Hr].
-             rewrite (Dt x eq_refl). exact Hr.
-          -- destruct (raw tr (target_of e)) as [x|] eqn:Rt; [|discriminate Hr].
-             rewrite (Dt x eq_refl). exact Hr.
-  Qed.
+  Section Core.
+    Variable test : expr.
+    (* a property of the chain that goes down to its targets and makes "looks the same as test" sound *)
+    Variable Q : expr -> Prop.
+    Hypothesis Q_target : forall e, is_chain e = true -> Q e -> Q (target_of e).
+    Hypothesis Q_same : forall t, Q t -> values_look_the_same test t = true -> same_eval W test t.
 
+    Theorem tioc_core_size : forall n e, (esize e <= n)%nat -> forall e',
+      Q e -> try_insert_optional_chain test e = Some e' ->
+      is_chain e' = true /\
+      forall tr,
+        (forall tr1 z, ev tr test = Some (tr1, Throw z) -> raw tr e' = Some (tr1, Throw z)) /\
+        (forall a, ev tr test = Some (tr, Val a) ->
+           (nullish a = true -> raw tr e' = Some (tr, Throw VShort)) /\
+           (nullish a = false -> D (raw tr e) (raw tr e'))).
+    Proof.
+      induction n as [|n IH]; intros e Hsz e' Hq H; [destruct e; cbn [esize] in Hsz; lia|].
+      destruct (tioc_inv _ _ _ H) as [Hc [[V ->] | [P [t' [T ->]]]]].
+      - (* the insertion point *)
+        split; [apply relink_chain; exact Hc|]. intros tr. rewrite raw_relink by exact Hc.
+        pose proof (Q_same _ (Q_target e Hc Hq) V) as St.
+        assert (Et1 : eval_target W 1 tr (target_of e) = ev tr test)
+          by (unfold eval_target; cbn; symmetry; exact (proj1 (St tr))).
+        rewrite Et1. split.
+        + intros tr1 z E. rewrite E. reflexivity.
+        + intros a E. rewrite E. unfold gstep. cbn [bind]. unfold short_if. cbn [Z.eqb Pos.eqb andb].
+          split; intros Hn; rewrite Hn; [reflexivity|].
+          intros r Hr. rewrite raw_link in Hr by exact Hc. unfold gstep in Hr.
+          destruct (eval_target W (oc_of e) tr (target_of e)) as [x|] eqn:Et; [|discriminate Hr].
+          assert (E0 : ev tr (target_of e) = Some (tr, Val a)) by (rewrite <- (proj1 (St tr)); exact E).
+          rewrite (target_value _ _ _ _ E0 Hn _ Et) in Hr. cbn [bind] in Hr. unfold short_if in Hr.
+          rewrite Hn, andb_false_r in Hr. exact Hr.
+      - (* a link above the insertion point *)
+        pose proof (target_size e Hc) as Hts.
+        destruct (IH (target_of e) ltac:(lia) t' (Q_target e Hc Hq) T) as [Hct' Hraw'].
+        pose proof (proj1 (tioc_inv _ _ _ T)) as Hct.
+        split; [apply relink_chain; exact Hc|]. intros tr. rewrite raw_relink by exact Hc.
+        destruct (Hraw' tr) as [Hthrow Hval].
+        set (oc' := if oc_of e =? 0 then 2 else oc_of e).
+        (* the new flag is "start" exactly when the old one is, and otherwise "continue" *)
+        assert (Hoc' : (oc' =? 1) = (oc_of e =? 1) /\ is_cont oc' = negb (oc_of e =? 1)).
+        { unfold oc', is_cont. destruct (oc_of e =? 0) eqn:E0; [apply Z.eqb_eq in E0; rewrite E0; split; reflexivity|].
+          rewrite E0. split; reflexivity. }
+        destruct Hoc' as [Hs1 Hc1].
+        split.
+        + intros tr1 z E. pose proof (Hthrow _ _ E) as Rt.
+          assert (Et : eval_target W oc' tr t' = Some (tr1, Throw z)).
+          { unfold eval_target. destruct (is_cont oc'); [exact Rt|].
+            rewrite (chain_eval t' tr Hct'), Rt. cbn [catch_short]. destruct z; try reflexivity.
+            exfalso. exact (eval_no_short W test tr tr1 E). }
+          rewrite Et. reflexivity.
+        + intros a E. destruct (Hval a E) as [Hnull Hnon]. split; intros Hn.
+          * pose proof (Hnull Hn) as Rt. unfold eval_target. rewrite Hc1.
+            destruct (oc_of e =? 1) eqn:E1; cbn [negb].
+            -- rewrite (chain_eval t' tr Hct'), Rt. unfold gstep. cbn [catch_short bind]. unfold short_if.
+               rewrite Hs1. reflexivity.
+            -- rewrite Rt. reflexivity.
+          * pose proof (Hnon Hn) as Dt. intros r Hr. rewrite raw_link in Hr by exact Hc.
+            unfold eval_target in *. rewrite Hc1. unfold gstep, short_if in *. rewrite Hs1.
+            destruct (oc_of e =? 1) eqn:E1; cbn [negb].
+            -- (* a link that starts a chain *)
+               assert (Hcont : is_cont (oc_of e) = false) by (unfold is_cont; rewrite E1; apply andb_false_r).
+               rewrite Hcont in Hr.
+               rewrite (chain_eval _ tr Hct) in Hr. rewrite (chain_eval t' tr Hct').
+               destruct (raw tr (target_of e)) as [x|] eqn:Rt; [|discriminate Hr].
+               rewrite (Dt x eq_refl). exact Hr.
+            -- destruct (oc_of e =? 0) eqn:E0.
+               ++ (* a link outside of any chain: its target is not an optional chain (fix 01a3711) *)
+                  assert (Hcont : is_cont (oc_of e) = false) by (unfold is_cont; rewrite E0; reflexivity).
+                  rewrite Hcont in Hr.
+                  unfold ends_paren_chain in P. rewrite E0 in P. cbn [andb] in P.
+                  assert (O' : oc_of (target_of e) = 0).
+                  { destruct (target_of e); try discriminate Hct; cbn [is_optional_chain oc_of] in *;
+                      apply negb_false_iff in P; apply Z.eqb_eq in P; exact P. }
+                  rewrite (chain_eval _ tr Hct), (catch_ns _ (raw_ns0 _ tr Hct O')) in Hr.
+                  destruct (raw tr (target_of e)) as [x|] eqn:Rt; [|discriminate Hr].
+                  rewrite (Dt x eq_refl). exact Hr.
+               ++ (* a link that continues a chain *)
+                  assert (Hcont : is_cont (oc_of e) = true) by (unfold is_cont; rewrite E0, E1; reflexivity).
+                  rewrite Hcont in Hr.
+                  destruct (raw tr (target_of e)) as [x|] eqn:Rt; [|discriminate Hr].
+                  rewrite (Dt x eq_refl). exact Hr.
+    Qed.
+
+    Theorem tioc_core : forall e e', Q e -> try_insert_optional_chain test e = Some e' ->
+      is_chain e = true /\ is_chain e' = true /\
+      forall tr,
+        (forall tr1 z, ev tr test = Some (tr1, Throw z) -> ev tr e' = Some (tr1, Throw z)) /\
+        (forall a, ev tr test = Some (tr, Val a) ->
+           (nullish a = true -> ev tr e' = Some (tr, Val VUndef)) /\
+           (nullish a = false -> D (ev tr e) (ev tr e'))).
+    Proof.
+      intros e e' Hq H.
+      destruct (tioc_core_size (esize e) e (le_n _) e' Hq H) as [Hc' Hr].
+      pose proof (proj1 (tioc_inv _ _ _ H)) as Hc.
+      split; [exact Hc|]. split; [exact Hc'|]. intros tr. destruct (Hr tr) as [Hthrow Hval]. split.
+      - intros tr1 z E. rewrite (chain_eval e' tr Hc'), (Hthrow _ _ E). cbn [catch_short].
+        destruct z; try reflexivity. exfalso. exact (eval_no_short W test tr tr1 E).
+      - intros a E. destruct (Hval a E) as [Hnull Hnon]. split; intros Hn.
+        + rewrite (chain_eval e' tr Hc'), (Hnull Hn). reflexivity.
+        + intros r Hr0. rewrite (chain_eval e tr Hc) in Hr0. rewrite (chain_eval e' tr Hc').
+          destruct (raw tr e) as [x|] eqn:Rt; [|discriminate Hr0].
+          rewrite (Hnon Hn x eq_refl). exact Hr0.
+    Qed.
+  End Core.
+
+  (* any guard, canonical number literals *)
   Theorem tioc_sound : forall test e e',
-    vls_ok test -> vls_ok e -> spine_ok e -> try_insert_optional_chain test e = Some e' ->
+    vls_ok test -> vls_ok e -> try_insert_optional_chain test e = Some e' ->
     is_chain e = true /\ is_chain e' = true /\
     forall tr,
       (forall tr1 z, ev tr test = Some (tr1, Throw z) -> ev tr e' = Some (tr1, Throw z)) /\
@@ -207,16 +233,34 @@ Section TIOC.
          (nullish a = true -> ev tr e' = Some (tr, Val VUndef)) /\
          (nullish a = false -> D (ev tr e) (ev tr e'))).
   Proof.
-    intros test e e' Hvt Hv Hs H.
-    destruct (tioc_sound_size test Hvt (esize e) e (le_n _) e' Hv Hs H) as [Hc' Hr].
-    pose proof (proj1 (tioc_inv _ _ _ H)) as Hc.
-    split; [exact Hc|]. split; [exact Hc'|]. intros tr. destruct (Hr tr) as [Hthrow Hval]. split.
-    - intros tr1 z E. rewrite (chain_eval e' tr Hc'), (Hthrow _ _ E). cbn [catch_short].
-      destruct z; try reflexivity. exfalso. exact (eval_no_short W test tr tr1 E).
-    - intros a E. destruct (Hval a E) as [Hnull Hnon]. split; intros Hn.
-      + rewrite (chain_eval e' tr Hc'), (Hnull Hn). reflexivity.
-      + intros r Hr0. rewrite (chain_eval e tr Hc) in Hr0. rewrite (chain_eval e' tr Hc').
-        destruct (raw tr e) as [x|] eqn:Rt; [|discriminate Hr0].
-        rewrite (Hnon Hn x eq_refl). exact Hr0.
+    intros test e e' Hvt Hv H. apply (tioc_core test vls_ok); [exact target_vls | | exact Hv | exact H].
+    intros t Ht V. exact (vls_sound_size W (esize test) test (le_n _) t Hvt Ht V).
+  Qed.
+
+  (* an identifier as guard: no condition on the chain *)
+  Lemma strip_same : forall t tr, ev tr t = ev tr (strip_enum t).
+  Proof. induction t; intros tr; try reflexivity. cbn [strip_enum eval]. apply IHt. Qed.
+
+  Lemma vls_id_same : forall r c m t, values_look_the_same (EId r c m) t = true -> same_eval W (EId r c m) t.
+  Proof.
+    intros r c m t H. cbn [values_look_the_same] in H.
+    destruct (strip_enum t) eqn:S; try discriminate H.
+    destruct (r =? ref) eqn:E; [|discriminate H]. apply Z.eqb_eq in E. subst ref.
+    intros tr. split.
+    - rewrite (strip_same t tr), S. reflexivity.
+    - destruct t; try discriminate S; reflexivity.
+  Qed.
+
+  Theorem tioc_sound_id : forall r c m e e',
+    try_insert_optional_chain (EId r c m) e = Some e' ->
+    is_chain e = true /\ is_chain e' = true /\
+    forall tr,
+      (forall tr1 z, ev tr (EId r c m) = Some (tr1, Throw z) -> ev tr e' = Some (tr1, Throw z)) /\
+      (forall a, ev tr (EId r c m) = Some (tr, Val a) ->
+         (nullish a = true -> ev tr e' = Some (tr, Val VUndef)) /\
+         (nullish a = false -> D (ev tr e) (ev tr e'))).
+  Proof.
+    intros r c m e e' H. apply (tioc_core (EId r c m) (fun _ => True)); [auto | | exact I | exact H].
+    intros t _ V. apply vls_id_same. exact V.
   Qed.
 End TIOC.
